@@ -460,7 +460,7 @@ def _getput_line_comment(
     # put operation
 
     if comment is not None:
-        if '\n' in comment:
+        if '\n' in comment or '\r' in comment or '\0' in comment:  # '\r' also ends a line for python and a NUL makes the source unparsable
             raise ValueError('line comment cannot have newlines in it')
 
         if full:
